@@ -64,6 +64,10 @@ CHECKS = {
    "Stateless preemption-bounded search over all interleavings of requests, collection deletion and the idle timer on the real ShardManager with real bbolt shard files: shardmgr.go is built with its sync and time imports redirected to scheduler shims (cooperative locks; a virtual timer whose firing is a controller transition enabled at every scheduling point while armed); channel operations stay real and quiescence is a stop-the-world goroutine snapshot. Quick: 7 two-thread programs with <=1 preemption, 3 three-thread programs with 0 (81k complete executions); thorough: 28 programs, bounds 0..2. Invariants: callback only on a usable handle or a clean error, one descriptor per shard file, files present during a request, no deadlock, final probe loads every shard.",
    "timer fires only at quiescent points (cleanup goroutine in its select); Go>=1.23 timer contract; sequentially consistent lock shims",
    "stateless DFS over schedules of the real code under a controlled scheduler with a virtual timer, iterative preemption bounding", "DESIGN.md §4 C12"),
+ "C09": (True, "schedx", "model_checking",
+   "Stateless preemption-bounded search over the interleavings of two (thorough: three) searcher goroutines and a writer on a real file-backed shard (48 points, shared unlimited cache, cold / partially warm / warm): scheduling points are the searchers' storage operations (storage proxy installed through the verif accessor hook: transaction begin, bucket open, every 8th Get, end), every lock/atomic operation of the real cache manager (import-rewrite overlay) and the writer's transaction begin / function-returned / commit-finished. Quick: 42 programs without preemption, 8 core programs with <=1 (20k complete executions); thorough: all programs <=1, core <=2. Oracle: no storage use after a transaction ended (recorded by the proxy instead of SIGSEGV), no failed search, every returned (id, document) belongs to a committed state that existed during the search, returned documents do not alias ended transactions, final point store/graph = sequential model in commit order, warm = cold answers. Every violating schedule is re-executed twice before it is believed.",
+   "the writer's individual storage operations are not scheduling points; one cached index in the schema; map-iteration order inside the code under test makes some prefixes unreplayable (retried, counted, never a verdict) so quick runs are usually not marked exhaustive",
+   "stateless DFS over schedules of the real code under a controlled scheduler + storage proxy, iterative preemption bounding", "DESIGN.md §4 C09"),
 }
 
 props = [json.loads(l) for l in open(os.path.join(HERE, "properties.jsonl"))]
